@@ -385,8 +385,19 @@ def readValueAttr (d : ServerDecl) (cells : List Bytes) (idx : Nat) (bufSize : N
         | none => .oob
     else .error
 
--- src: server.hpp:server::l2cap_output (after fixes/attaccess-01: clipped to the negotiated MTU)
-def l2capOutput (d : ServerDecl) (st : State) (c : Nat) (size : Nat) : State × Out :=
+/-- what `l2cap_output` does with the queue when a dequeued entry of kind `k` is NOT transmitted
+    (client not subscribed, `out_size < 3`, read access refused) — fixes/attnotify-03:
+    `if ( pending.first == indication ) connection.indication_confirmed();`, nothing for a
+    notification (an outstanding confirmation of an earlier, transmitted indication stays) -/
+def unsentQueue (k : Kind) (q : Spec) : Spec :=
+  if k = .indication then (q.step .conf).1 else q
+
+/-- before fixes/attnotify-03: the "indication outstanding" marker set by the dequeue stays -/
+def unsentQueueOld (_ : Kind) (q : Spec) : Spec := q
+
+-- src: server.hpp:server::l2cap_output (after fixes/attaccess-01: clipped to the negotiated MTU;
+-- `unsent` = treatment of a dequeued but not transmitted entry, see `unsentQueue`)
+def l2capOutputGen (unsent : Kind → Spec → Spec) (d : ServerDecl) (st : State) (c : Nat) (size : Nat) : State × Out :=
   match st.conns[c]? with
   | none => (st, .bad)
   | some conn =>
@@ -395,6 +406,7 @@ def l2capOutput (d : ServerDecl) (st : State) (c : Nat) (size : Nat) : State × 
     | (q, .entry none) => (setConn st c { conn with queue := q }, .pdu [])
     | (q, .entry (some (k, i))) =>
       let st' := setConn st c { conn with queue := q }
+      let stUnsent := setConn st c { conn with queue := unsent k q }
       let data := findByIndex d i
       match conn.cccd[data.cccdIndex]? with
       | none => (st', .oob)
@@ -402,10 +414,17 @@ def l2capOutput (d : ServerDecl) (st : State) (c : Nat) (size : Nat) : State × 
         if flags &&& k.bit ≠ 0 ∧ 3 ≤ outSize then
           match readValueAttr d st.cells data.attrIndex (outSize - 3), d.handles[data.attrIndex]? with
           | .success v, some h => (st', .pdu (opcodeOf k :: (le16 h ++ v)))
-          | .error, _ => (st', .pdu [])
+          | .error, _ => (stUnsent, .pdu [])
           | _, _ => (st', .oob)
-        else (st', .pdu [])
+        else (stUnsent, .pdu [])
     | (_, _) => (st, .oob)
+
+def l2capOutput (d : ServerDecl) (st : State) (c : Nat) (size : Nat) : State × Out :=
+  l2capOutputGen unsentQueue d st c size
+
+/-- the code before fixes/attnotify-03 -/
+def l2capOutputOld (d : ServerDecl) (st : State) (c : Nat) (size : Nat) : State × Out :=
+  l2capOutputGen unsentQueueOld d st c size
 
 /-- Write Request `v` to the CCCD of the characteristic with `cccd_position` `p` (declaration
     order); src: characteristic.hpp CCCD attribute `access` (write, offset 0, 2 bytes) and
@@ -451,6 +470,11 @@ def step (d : ServerDecl) (st : State) : Op → State × Out
     match st.cells[cell]? with
     | some old => if old.length = v.length then ({ st with cells := st.cells.set cell v }, .ok) else (st, .bad)
     | none => (st, .bad)
+
+/-- `step` with the `l2cap_output` before fixes/attnotify-03 (witness theorems only) -/
+def stepOld (d : ServerDecl) (st : State) : Op → State × Out
+  | .output c size => l2capOutputOld d st c size
+  | op => step d st op
 
 def run (d : ServerDecl) (st : State) : List Op → State × List Out
   | [] => (st, [])
